@@ -8,6 +8,9 @@ import (
 	"fmt"
 	"os"
 
+	"github.com/cube2222/octosql/execution"
+	"github.com/cube2222/octosql/octosql"
+
 	"verifharness/cmd/c15/ops"
 	"verifharness/cmd/c16/gb"
 	"verifharness/lib"
@@ -68,7 +71,9 @@ func main() {
 		"non-trivial = valid script with at least one retraction and one duplicate insertion (Limit/insert-only nodes: at least 3 records); distinct by full case text. " +
 		"GROUP BY: SimpleGroupBy / CustomTriggerGroupBy built through the planner path by harness/cmd/c16/gb (all trigger sets, COUNT/SUM, watermarks) and judged by validity of the output + c16_spec; " +
 		"JOIN: StreamJoin / OuterJoin over two gated plain scripts (valid changelogs, event times, watermarks) consumed in a prescribed order (random merges and " +
-		"one-input-ends-before-the-other-starts), judged by validity of the output + c19_spec_final"
+		"one-input-ends-before-the-other-starts), judged by validity of the output + c19_spec_final. " +
+		"Deterministic families in every run: ORDER BY + LIMIT 1..3 with a retraction among the first n rows / equal duplicates on the boundary (OST and printer), " +
+		"Distinct with multiplicity > 1 then retractions, a group emitted by a counting trigger and then emptied, a join input that ends while its records are still buffered"
 	n := f.Cases(900, 9000)
 	nGroup := f.Cases(250, 2500)
 	nJoin := f.Cases(300, 3000)
@@ -119,8 +124,45 @@ func main() {
 			cf.Violation(idx, fmt.Sprintf("%s failed on a valid changelog with an error-free source: %v", ops.KindNames[kind], obs.Err), "")
 		}
 	}
+	// ---- deterministic families (every seed): rows crossing the LIMIT boundary by retraction, duplicates on the
+	// boundary, a row inserted several times and then retracted ----
+	for _, fc := range append(ops.FixedLimitCases(), ops.FixedDistinctCases()...) {
+		obs := fc.Spec.Run(fc.Script)
+		js := map[string]interface{}{"arity": fc.Arity, "family": fc.Family, "node": fc.Spec.JSON(), "input": lib.EventsJSON(fc.Script), "observed": obs.JSON()}
+		idx := cf.Add(fmt.Sprintf("XNode (%s, %s, %s, %s)", ops.Nat(fc.Arity), fc.Spec.Coq(), lib.CoqEvents(fc.Script), obs.Coq()), js, true)
+		cf.Count("fixed_" + fc.Family)
+		if obs.Panicked != nil {
+			cf.Violation(idx, fmt.Sprintf("%s panicked on a valid changelog: %v", ops.KindNames[fc.Spec.Kind], obs.Panicked), "")
+		}
+	}
 	// ---- GROUP BY (nodes and generator of harness/cmd/c16/gb; the case term is a gb_case) ----
 	gb.Init()
+	// deterministic: a group is emitted by a counting trigger, then all its rows are retracted (it stays empty, it
+	// shrinks first, or it is refilled), next to a group that stays
+	{
+		rec := func(k, v int64, retr bool) lib.Event {
+			return lib.Event{Rec: execution.NewRecord([]octosql.Value{octosql.NewInt(k), octosql.NewString("x"), octosql.NewInt(v)}, retr, lib.T(0))}
+		}
+		scripts := [][]lib.Event{
+			{rec(1, 5, false), rec(2, 7, false), rec(1, 5, true)},
+			{rec(1, 5, false), rec(1, 6, false), rec(2, 7, false), rec(1, 5, true), rec(1, 6, true)},
+			{rec(2, 7, false), rec(1, 5, false), rec(1, 5, true), rec(1, 9, false)},
+			{rec(1, 5, false), rec(1, 5, true)},
+		}
+		trigSets := [][]gb.Trig{
+			{{Kind: gb.Counting, N: 1}},
+			{{Kind: gb.Counting, N: 1}, {Kind: gb.EndOfStream}},
+			{{Kind: gb.Counting, N: 2}, {Kind: gb.EndOfStream}},
+			{{Kind: gb.Counting, N: 3}},
+		}
+		for _, ts := range trigSets {
+			for _, sc := range scripts {
+				idx := gb.RunCase(cf, gb.Config{NK: 1, Aggs: []gb.Agg{gb.Count, gb.Sum}, KTI: -1, Trigs: ts}, sc, "fixed_group_emptied_after_trigger")
+				cf.Items[idx] = "XGroup " + cf.Items[idx]
+				cf.Count("fixed_group_emptied_after_trigger")
+			}
+		}
+	}
 	for i := 0; i < nGroup; i++ {
 		r := rng.Fork()
 		idx := gb.RandomCase(cf, r, i, false)
@@ -128,6 +170,7 @@ func main() {
 	}
 	// ---- StreamJoin / OuterJoin ----
 	ops.InitJoins()
+	ops.FixedJoinCases(cf)
 	for i := 0; i < nJoin; i++ {
 		ops.RandomJoinCase(cf, rng.Fork())
 	}
